@@ -28,9 +28,11 @@ ValidKinds(s) == \A i \in DOMAIN s :
    s[i] = "row" => i > 1 /\ s[i - 1] \in {"outline", "row"}
 KindSeqs == UNION {{s \in [1..n -> Kinds] : ValidKinds(s)} : n \in 1..(MaxEnt - 1)}
 \* gaps: filler lines before entity i = prof[i]; body lines: description/background of a feature or rule
-\* = prof[i+1], steps of a scenario/outline = 1 or 2
-BodyOf(prof, i, k) == CASE k \in {"feature", "rule"}     -> prof[i + 1]
-                        [] k \in {"scenario", "outline"} -> 1 + (prof[i + 1] % 2)
+\* = prof[i+1], steps of an outline = 1 or 2, body lines of a scenario = prof[i+1] = 0, 1 or 2 (0: a scenario
+\* WITHOUT steps; the driver also renders some one-line bodies as a description only)
+BodyOf(prof, i, k) == CASE k \in {"feature", "rule"} -> prof[i + 1]
+                        [] k = "scenario"            -> prof[i + 1]
+                        [] k = "outline"             -> 1 + (prof[i + 1] % 2)
                         [] OTHER -> 0
 Choices(ks, prof, i) ==    \* items for position i + 1 (kind ks[i])
    LET k == ks[i]
@@ -178,8 +180,10 @@ Emit == /\ OnLayout(PrintT(<<"CASE", ToJson([kind |-> "layout", items |-> items,
                                                     texts |-> [p \in DOMAIN pats |-> PatText(pats[p])]])>>)
 
 \* ---------------------------------------------------------------- constant definitions for the cfg files
-TagsAll == {"none", "setup", "teardown"}
-TagsTwo == {"none", "setup"}
+\* "near": a tag that is NOT setup / teardown but a substring or superstring of them (rendered by the driver from
+\* up, set, s, tear, down, setups, setupteardown); it exempts nothing
+TagsAll == {"none", "setup", "teardown", "near"}
+TagsTwo == {"none", "setup", "near"}
 PQ == { <<0,0,0,0,0,0>>, <<0,1,0,2,0,1>>, <<2,0,1,0,2,0>> }
 ProfQuick == [n \in 2..5 |-> PQ]
 TaggedQuick == [n \in 2..5 |-> 1]
